@@ -643,6 +643,77 @@ def unconnected_send_specs():
     return [s1, s2]
 
 
+CL = "server/enip/client.py"
+
+
+def frag_wrapper_fields(eng, fdef):
+    """the assignments of the fixed-size fields of the Unconnected Send wrapper in client.unconnected_send (inside `if send_path or route_path:`)"""
+    import ast
+    for n in ast.walk(fdef):
+        if isinstance(n, ast.If) and ast.unparse(n.test) == 'send_path or route_path':
+            want = ('us.service', 'us.status', 'us.priority', 'us.timeout_ticks')
+            stmts = [x for x in n.body if isinstance(x, ast.Assign) and len(x.targets) == 1 and ast.unparse(x.targets[0]) in want]
+            if sorted(ast.unparse(x.targets[0]) for x in stmts) != sorted(want):
+                raise Unsupported('stale contract: the wrapper branch of client.unconnected_send does not assign service / status / priority / timeout_ticks once each')
+            return stmts
+    raise Unsupported('stale contract: client.unconnected_send has no `if send_path or route_path:` branch')
+
+
+def replay_wrapper_fields(model, obligation):
+    """the real client method with the transport replaced: the wrapper it sends is parsed back by the real parser and compared with the values supplied"""
+    import cpppo
+    from cpppo.server.enip import client, parser, logix
+
+    class Offline(client.client):
+        def __init__(self):
+            self.session, self.dialect, self.profiler, self.conn, self.udp, self.sent = 0x12345678, logix.Logix, None, None, False, []
+
+        def send(self, request, timeout=None):
+            self.sent.append(bytes(request))
+    m = model or {}
+    cands = []
+    try:
+        cands.append((None if m.get('priority_time_tick.is_none') else int(m.get('priority_time_tick', 0)), None if m.get('timeout_ticks.is_none') else int(m.get('timeout_ticks', 0))))
+    except Exception:
+        pass
+    cands += [(0, 0), (0, 255), (10, 0), (1, 1), (15, 255), (7, 155), (None, None), (None, 0), (0, None)]
+    for prio, ticks in cands:
+        if (prio is not None and not 0 <= prio <= 255) or (ticks is not None and not 0 <= ticks <= 255):
+            continue
+        cli = Offline()
+        req = cli.read('SCADA[12]', elements=3, offset=0, send=False)
+        cli.unconnected_send(request=req, route_path='1/0', send_path='@6/1', priority_time_tick=prio, timeout_ticks=ticks, sender_context=b'ctx')
+        data = cpppo.dotdict()
+        with parser.enip_machine(context='enip', terminal=True) as mach:
+            for _ in mach.run(source=cpppo.chainable(cli.sent[-1]), data=data):
+                pass
+        with parser.CIP(terminal=True) as mach:
+            for _ in mach.run(source=cpppo.peekable(data.enip.input), data=data, path='enip'):
+                pass
+        us = data.enip.CIP.send_data.CPF.item[1].unconnected_send
+        want = (cli.priority_time_tick if prio is None else prio, cli.timeout_ticks if ticks is None else ticks)
+        if (us.priority, us.timeout_ticks) != want or us.service != 0x52:
+            return dict(confirmed=True, function='cpppo.server.enip.client.client.unconnected_send', input='priority_time_tick=%r, timeout_ticks=%r' % (prio, ticks),
+                        observed='the wrapper sent parses back to service 0x%02x priority %r timeout_ticks %r' % (us.service, us.priority, us.timeout_ticks),
+                        required='priority %r timeout_ticks %r: the values supplied (the client defaults only where none was supplied)' % want)
+    return dict(confirmed=False)
+
+
+def client_wrapper_spec():
+    us_rec = ('Rec', {'service?': 'Int', 'status?': 'Int', 'priority?': 'Int', 'timeout_ticks?': 'Int'})
+    return Spec('client.unconnected_send[wrapper fields]', (CL, 'client.unconnected_send'), fragment=frag_wrapper_fields, cls_name='client',
+                params={'priority_time_tick': 'OptInt', 'timeout_ticks': 'OptInt'}, fields={'priority_time_tick': 'Int', 'timeout_ticks': 'Int'},
+                hints=dict(locals={'us': us_rec}),
+                requires='implies(priority_time_tick is not None, 0 <= priority_time_tick <= 255) and implies(timeout_ticks is not None, 0 <= timeout_ticks <= 255)',
+                ensures=[('the service code of Unconnected Send, status 0', 'us.service == 0x52 and us.status == 0'),
+                         ('a supplied priority/time_tick is the one encoded (0 included)', 'implies(priority_time_tick is not None, us.priority == priority_time_tick)'),
+                         ('the client default only where none was supplied', 'implies(priority_time_tick is None, us.priority == self.priority_time_tick)'),
+                         ('a supplied timeout_ticks is the one encoded (0 included)', 'implies(timeout_ticks is not None, us.timeout_ticks == timeout_ticks)'),
+                         ('the client default only where none was supplied (ticks)', 'implies(timeout_ticks is None, us.timeout_ticks == self.timeout_ticks)')],
+                raises={}, modifies=['us.service', 'us.status', 'us.priority', 'us.timeout_ticks'], replay=replay_wrapper_fields,
+                note='FRAGMENT (T9): the four assignments of the fixed-size wrapper fields in client.unconnected_send; the record `us` is then encoded by '
+                     'unconnected_send.produce (its own contract above); path / route_path / request are built by the statements around the fragment (not under contract)')
+
 
 def encapsulation_specs():
     """register / send_data / connection_ID / connection_data / CPF_service producers (scalar producers inlined, CPF.produce and octets by assumed contract)"""
@@ -1099,5 +1170,5 @@ def typed_data_specs():
 
 
 def contracts(repo):
-    return (scalar_specs() + string_specs() + [enip_encode_spec()] + logix_produce_specs() + unconnected_send_specs() + connection_specs()
+    return (scalar_specs() + string_specs() + [enip_encode_spec()] + logix_produce_specs() + unconnected_send_specs() + [client_wrapper_spec()] + connection_specs()
             + epath_specs() + [status_spec()] + typed_data_specs() + encapsulation_specs() + cpf_specs() + connection_manager_specs() + object_produce_specs() + [legacy_spec()])
